@@ -464,6 +464,259 @@ end Boario.Gen
 """
 
 
+# ------------------------------------------------------------------ pointwise formulas
+#
+# Element-wise NumPy code (every array has the same shape and every operation acts cell by cell) is a
+# function of one cell's values.  `Pointwise` re-expresses such a function as a Lean function over `Rat`:
+#   x = np.full(shape, c)            let x := c
+#   x[M] = E                         let x := if M then E else x        (every `[M]` inside E is the same mask)
+#   x[np.isnan(x)] = c               skipped: there is no NaN over the rationals (recorded in the docstring)
+#   x = E / x += E / x.flatten() / x.copy()
+#   (a > b) inside arithmetic        the 0/1 indicator
+#   np.maximum / np.minimum / np.fmin / np.fmax / np.where
+#   a ** n                           n must be an expression over `int` parameters and integer literals
+#   if (v < c).any(): raise          a separate Boolean function `<name>_rejects`
+# Anything else makes the generated definition `unknownFormula "<what>"` (an opaque constant: no theorem about
+# it can be proved, nothing passes by default).
+
+from fractions import Fraction
+
+
+class Pointwise:
+    def __init__(self, fn, nat_params=(), inline=None, self_attrs_are_params=True, drop_params=("self",)):
+        self.fn = fn
+        self.natp = set(nat_params)
+        self.inline = dict(inline or {})
+        self.params = []           # (name, "Rat" | "Nat") in order of first read
+        self.bound = set()
+        self.lines = []
+        self.notes = []
+        self.guards = []
+        self.declared = [a.arg for a in fn.args.args if a.arg not in drop_params]
+        self.masks = {}
+
+    # -- names
+    def var(self, name, kind="Rat"):
+        if name in self.inline:
+            return self.inline[name]
+        if name not in self.bound and name not in [p for p, _ in self.params]:
+            self.params.append((name, "Nat" if name in self.natp else "Rat"))
+        return name
+
+    def name_of(self, e):
+        if isinstance(e, ast.Name):
+            return e.id
+        if isinstance(e, ast.Attribute) and isinstance(e.value, ast.Name) and e.value.id == "self":
+            return e.attr.lstrip("_")
+        return None
+
+    # -- expressions
+    def lit(self, v):
+        fr = Fraction(str(v))
+        if fr.denominator == 1:
+            return f"({fr.numerator} : Rat)"
+        return f"(({fr.numerator} : Rat) / {fr.denominator})"
+
+    def nat(self, e):
+        if isinstance(e, ast.Constant) and isinstance(e.value, int) and not isinstance(e.value, bool) and e.value >= 0:
+            return str(e.value)
+        if isinstance(e, ast.Constant) and isinstance(e.value, float) and e.value >= 0 and float(e.value).is_integer():
+            return str(int(e.value))
+        n = self.name_of(e)
+        if n is not None:
+            if n in self.inline_nat:
+                return self.inline_nat[n]
+            if n in self.natp:
+                self.var(n)
+                return n
+        if isinstance(e, ast.BinOp) and isinstance(e.op, (ast.Add, ast.Mult)):
+            op = "+" if isinstance(e.op, ast.Add) else "*"
+            return f"({self.nat(e.left)} {op} {self.nat(e.right)})"
+        raise Untranslatable("exponent " + ast.unparse(e))
+
+    inline_nat = {}
+
+    def cond(self, e):
+        if isinstance(e, ast.Name) and e.id in self.masks:
+            return self.masks[e.id]
+        if isinstance(e, ast.Compare) and len(e.ops) == 1:
+            a, b = self.expr(e.left), self.expr(e.comparators[0])
+            op = {ast.Gt: ">", ast.GtE: "≥", ast.Lt: "<", ast.LtE: "≤", ast.NotEq: "≠", ast.Eq: "="}.get(type(e.ops[0]))
+            if op:
+                return f"({a} {op} {b})"
+        if isinstance(e, ast.UnaryOp) and isinstance(e.op, ast.Invert):
+            return f"(¬ {self.cond(e.operand)})"
+        if isinstance(e, ast.BinOp) and isinstance(e.op, (ast.BitAnd, ast.BitOr)):
+            return f"({self.cond(e.left)} {'∧' if isinstance(e.op, ast.BitAnd) else '∨'} {self.cond(e.right)})"
+        raise Untranslatable("condition " + ast.unparse(e))
+
+    def expr(self, e, mask=None):
+        if isinstance(e, ast.Constant) and isinstance(e.value, (int, float)) and not isinstance(e.value, bool):
+            return self.lit(e.value)
+        n = self.name_of(e)
+        if n is not None:
+            v = self.var(n)
+            return f"({v} : Rat)" if n in self.natp and n not in self.inline else v
+        if isinstance(e, ast.UnaryOp) and isinstance(e.op, ast.USub):
+            return f"(-{self.expr(e.operand, mask)})"
+        if isinstance(e, ast.BinOp):
+            if isinstance(e.op, ast.Pow):
+                return f"({self.expr(e.left, mask)} ^ {self.nat(e.right)})"
+            op = {ast.Add: "+", ast.Sub: "-", ast.Mult: "*", ast.Div: "/"}.get(type(e.op))
+            if op:
+                return f"({self.expr(e.left, mask)} {op} {self.expr(e.right, mask)})"
+        if isinstance(e, ast.Compare):
+            return f"(if {self.cond(e)} then (1 : Rat) else 0)"
+        if isinstance(e, ast.Subscript) and mask is not None and self._mask_key(e.slice) == mask:
+            return self.expr(e.value, mask)
+        if isinstance(e, ast.Call):
+            f = e.func
+            if isinstance(f, ast.Attribute) and f.attr in ("flatten", "copy", "ravel") and not e.args:
+                return self.expr(f.value, mask)
+            ch = attr_chain(f)
+            if ch in ("np.maximum", "np.fmax") and len(e.args) == 2 and not e.keywords:
+                return f"(max {self.expr(e.args[0], mask)} {self.expr(e.args[1], mask)})"
+            if ch in ("np.minimum", "np.fmin") and len(e.args) == 2 and not e.keywords:
+                return f"(min {self.expr(e.args[0], mask)} {self.expr(e.args[1], mask)})"
+            if ch == "np.where" and len(e.args) == 3 and not e.keywords:
+                return f"(if {self.cond(e.args[0])} then {self.expr(e.args[1], mask)} else {self.expr(e.args[2], mask)})"
+            if ch in ("np.full", "np.full_like") and len(e.args) == 2:
+                return self.expr(e.args[1], mask)
+            if ch in ("np.zeros", "np.zeros_like"):
+                return "(0 : Rat)"
+            if ch in ("np.ones", "np.ones_like"):
+                return "(1 : Rat)"
+        raise Untranslatable(ast.unparse(e))
+
+    def _mask_key(self, m):
+        try:
+            return self.cond(m)
+        except Untranslatable:
+            return ast.dump(m)
+
+    # -- statements
+    def let(self, name, rhs):
+        self.lines.append(f"  let {name} : Rat := {rhs}")
+        self.bound.add(name)
+
+    def stmt(self, st):
+        if isinstance(st, ast.Expr) and isinstance(st.value, ast.Constant) and isinstance(st.value.value, str):
+            return None
+        if isinstance(st, ast.Assign) and len(st.targets) == 1:
+            tg = st.targets[0]
+            n = self.name_of(tg)
+            if n is not None and isinstance(tg, ast.Name) and isinstance(st.value, (ast.Compare, ast.UnaryOp)) \
+                    and not (isinstance(st.value, ast.UnaryOp) and isinstance(st.value.op, ast.USub)):
+                # a mask kept in a local name
+                self.masks[n] = self.cond(st.value)
+                return None
+            if n is not None:
+                self.masks.pop(n, None)
+                self.let(n, self.expr(st.value))
+                return None
+            if isinstance(tg, ast.Subscript):
+                n = self.name_of(tg.value)
+                m = tg.slice
+                if n is not None:
+                    if isinstance(m, ast.Call) and attr_chain(m.func) == "np.isnan":
+                        self.notes.append(f"`{ast.unparse(st)}` skipped (no NaN over the rationals)")
+                        return None
+                    cur = self.expr(tg.value)
+                    c = self.cond(m)
+                    self.let(n, f"if {c} then {self.expr(st.value, self._mask_key(m))} else {cur}")
+                    return None
+        if isinstance(st, ast.AugAssign):
+            n = self.name_of(st.target)
+            op = {ast.Add: "+", ast.Sub: "-", ast.Mult: "*", ast.Div: "/"}.get(type(st.op))
+            if n is not None and op:
+                cur = self.expr(st.target)
+                self.let(n, f"({cur} {op} {self.expr(st.value)})")
+                return None
+        if isinstance(st, ast.If) and not st.orelse and len(st.body) == 1 and isinstance(st.body[0], ast.Raise):
+            t = st.test
+            if isinstance(t, ast.Call) and isinstance(t.func, ast.Attribute) and t.func.attr == "any" and not t.args:
+                self.guards.append((list(self.lines), self.cond(t.func.value)))
+                return None
+        if isinstance(st, ast.Return) and st.value is not None:
+            return self.expr(st.value)
+        if isinstance(st, ast.If) and isinstance(st.test, ast.Compare) and len(st.test.ops) == 1 and \
+                isinstance(st.test.ops[0], ast.Is) and isinstance(st.test.comparators[0], ast.Constant) and \
+                st.test.comparators[0].value is None and self.name_of(st.test.left) in self.inline_none:
+            # `if p is None: A else: B` for a parameter the simulation never passes: the `None` branch
+            for s2 in st.body:
+                r = self.stmt(s2)
+                if r is not None:
+                    return r
+            return None
+        raise Untranslatable(ast.unparse(st).splitlines()[0])
+
+    inline_none = ()
+
+    def run(self, result=None):
+        ret = None
+        for st in self.fn.body:
+            ret = self.stmt(st)
+            if ret is not None:
+                break
+        if ret is None:
+            if result is None:
+                raise Untranslatable("no result")
+            ret = result
+        return ret
+
+
+def lean_formula(name, fn, doc, nat_params=(), inline=None, inline_nat=None, inline_none=(), result=None, fixed_params=None):
+    pw = Pointwise(fn, nat_params=nat_params, inline=inline)
+    pw.inline_nat = dict(inline_nat or {})
+    pw.inline_none = tuple(inline_none)
+    try:
+        if fixed_params:
+            for q in fixed_params:
+                pw.var(q)
+        ret = pw.run(result)
+        body = "\n".join(pw.lines + [f"  {ret}"])
+        notes = "".join(f"\n    {n}" for n in pw.notes)
+        sig = " ".join(f"({q} : {k})" for q, k in pw.params)
+        out = f"/-- {doc}{notes} -/\ndef {name} {sig} : Rat :=\n{body}\n"
+        for gi, (lines, c) in enumerate(pw.guards):
+            gname = f"{name}_rejects" + ("" if gi == 0 else str(gi))
+            out += f"\n/-- the condition under which `{name}` raises -/\ndef {gname} {sig} : Prop :=\n" + \
+                   "\n".join(lines + [f"  {c}"]) + "\n"
+        return out
+    except Untranslatable as u:
+        return f"/-- {doc} (NOT TRANSLATED: {str(u)[:120]}) -/\ndef {name} : Rat := unknownFormula {lstr(str(u)[:120])}\n"
+
+
+def gen_formulas(trees, rec_tree):
+    base = find_class(trees["model_base"], "ARIOBaseModel")
+    parts = []
+    parts.append(lean_formula(
+        "calc_overproduction", find_func(base, "calc_overproduction"),
+        "`ARIOBaseModel.calc_overproduction`, one industry: the new overproduction factor.",
+        result="overprod", fixed_params=["overprod", "overprod_max", "overprod_base", "overprod_tau", "entire_demand_tot", "production"]))
+    parts.append(lean_formula(
+        "production_cap", find_func(base, "production_cap"),
+        "`ARIOBaseModel.production_cap`, one industry.",
+        fixed_params=["X_0", "prod_cap_delta_tot", "overprod"]))
+    parts.append(lean_formula(
+        "production_opt", find_func(base, "production_opt"),
+        "`ARIOBaseModel.production_opt`, one industry (capacity given).",
+        fixed_params=["entire_demand_tot", "production_cap"]))
+    rec = dict(nat_params=("elapsed_temporal_unit", "recovery_tau"))
+    sim_passes = "the simulation binds `init_impact_stock` and `recovery_tau` and passes `elapsed_temporal_unit`; other parameters keep their defaults"
+    for fname in ("linear_recovery", "convexe_recovery", "convexe_recovery_scaled"):
+        fn = find_func(rec_tree, fname)
+        inl_nat = {}
+        for a, dflt in zip(reversed(fn.args.args), reversed(fn.args.defaults)):
+            if isinstance(dflt, ast.Constant) and isinstance(dflt.value, (int, float)) and float(dflt.value).is_integer() and dflt.value >= 0:
+                inl_nat[a.arg] = str(int(dflt.value))
+        parts.append(lean_formula(
+            fname, fn, f"`recovery_functions.{fname}`, one cell ({sim_passes}).",
+            inline_nat=inl_nat, fixed_params=["elapsed_temporal_unit", "init_impact_stock", "recovery_tau"], **rec))
+    return ("/- GENERATED by harness/translate.py: element-wise formulas of the source as functions of one cell. Do not edit. -/\n"
+            "import Boario.GenTypes\n\nnamespace Boario.Gen\n\n" + "\n".join(parts) + "\nend Boario.Gen\n")
+
+
 def regenerate():
     GEN.mkdir(parents=True, exist_ok=True)
     trees = {}
@@ -475,6 +728,7 @@ def regenerate():
         "Defaults.lean": gen_defaults(trees),
         "Slices.lean": gen_slices(trees),
         "Loop.lean": gen_loop(trees["simulation"]),
+        "Formulas.lean": gen_formulas(trees, ast.parse((REPO / "boario" / "utils" / "recovery_functions.py").read_text())),
     }
     changed = []
     for name, text in outs.items():
